@@ -1,0 +1,75 @@
+//go:build verif
+
+package rueidis
+
+import (
+	"context"
+	"sync"
+)
+
+// VerifHooks is the seam used by the deterministic simulation harness.
+// It only exists in builds with the "verif" tag. Every field left nil makes
+// the corresponding hook a no-op, so a verif build without a harness installed
+// behaves like a normal build.
+var VerifHooks struct {
+	// Yield is called at scheduling points. The harness may park the calling goroutine.
+	Yield func(ctx context.Context, site string, obj any, cmd []string)
+	// Trace is called at state transitions of the queues and pools.
+	Trace func(site string, obj any, a, b uint64)
+	// NewLocker, when set, supplies the lockers used by ring slots and pools,
+	// so that a goroutine blocked on them is visible to the harness.
+	NewLocker func() sync.Locker
+}
+
+func verifYield(ctx context.Context, site string, obj any, cmd Completed) {
+	if f := VerifHooks.Yield; f != nil {
+		f(ctx, site, obj, cmd.Commands())
+	}
+}
+
+func verifTrace(site string, obj any, a, b uint64) {
+	if f := VerifHooks.Trace; f != nil {
+		f(site, obj, a, b)
+	}
+}
+
+func verifLocker() sync.Locker {
+	if f := VerifHooks.NewLocker; f != nil {
+		return f()
+	}
+	return &sync.Mutex{}
+}
+
+// verifRing rebuilds the slot conditions of a new ring over harness lockers.
+func verifRing(r *ring) {
+	if VerifHooks.NewLocker == nil {
+		return
+	}
+	for i := range r.store {
+		m := verifLocker()
+		r.store[i].c1 = sync.NewCond(m)
+		r.store[i].c2 = sync.NewCond(m)
+	}
+}
+
+// verifPool rebuilds the condition of a new pool over a harness locker.
+func verifPool(p *pool) {
+	if VerifHooks.NewLocker == nil {
+		return
+	}
+	p.cond = sync.NewCond(verifLocker())
+}
+
+func verifFirst(multi []Completed) (c Completed) {
+	if len(multi) != 0 {
+		c = multi[0]
+	}
+	return c
+}
+
+func verifFirstCacheable(multi []CacheableTTL) (c Completed) {
+	if len(multi) != 0 {
+		c = Completed(multi[0].Cmd)
+	}
+	return c
+}
